@@ -46,8 +46,8 @@ OUTER:
 		used := 0
 		for end < len(orig) && used < s.fragmentSize {
 			r, size := utf8.DecodeRune(orig[end:])
-			if r == utf8.RuneError {
-				continue OUTER // bail
+			if r == utf8.RuneError && size <= 1 {
+				continue OUTER // bail on invalid UTF-8 (a literal U+FFFD is 3 bytes wide)
 			}
 			end += size
 			used++
@@ -63,7 +63,7 @@ OUTER:
 				continue OUTER
 			}
 			r, size := utf8.DecodeLastRune(orig[0:start])
-			if r == utf8.RuneError {
+			if r == utf8.RuneError && size <= 1 {
 				continue OUTER // bail
 			}
 			if start-size >= maxbegin {
@@ -99,13 +99,13 @@ OUTER:
 
 		for offset > 0 {
 			r, size := utf8.DecodeLastRune(orig[0:start])
-			if r == utf8.RuneError {
+			if r == utf8.RuneError && size <= 1 {
 				continue OUTER // bail
 			}
 			start -= size
 
 			r, size = utf8.DecodeLastRune(orig[0:end])
-			if r == utf8.RuneError {
+			if r == utf8.RuneError && size <= 1 {
 				continue OUTER // bail
 			}
 			end -= size
